@@ -28,6 +28,15 @@ pub fn plan(tier: &str, seed: u64) -> Vec<Batch> {
         // one attacker move *and* one resource fault (a verification step of the library that cannot
         // be carried out), every pair of positions: emulated backend, lookups whose walk ends in ".."
         if uni.no_openat2 {
+            // history: one fault somewhere in the *first* lookup of a process (where the library
+            // initialises whatever it keeps for later), then the racing lookups of the catalogue
+            let total = FIRST_USE_STEPS * FIRST_USE_ERRNOS.len() as u64;
+            let stride = if tier == "thorough" { 1 } else { 3 };
+            let mut lo = 0;
+            while lo < total {
+                v.push(Batch { check: "C02".into(), phase: "first-use-then-race".into(), uni: uni.clone(), seed, lo, hi: (lo + 24).min(total), fresh: true, tier: tier.into(), extra: json!({"stride": stride}) });
+                lo += 24;
+            }
             let n = (fault_pair_lookups().len() * fault_pair_moves().len()) as u64;
             for i in 0..n {
                 for shard in 0..4u64 {
@@ -43,6 +52,64 @@ pub fn plan(tier: &str, seed: u64) -> Vec<Batch> {
         }
     }
     v
+}
+
+pub const FIRST_USE_STEPS: u64 = 160;
+pub const FIRST_USE_ERRNOS: [i32; 3] = [libc::EMFILE, libc::ENOMEM, libc::EIO];
+
+/// in one (fresh) universe: a faulted first lookup, then a racing lookup under every window
+fn run_first_use_then_race(u: &mut Universe, b: &Batch, idx: u64, st: &mut Stats) {
+    let stride = b.extra["stride"].as_u64().unwrap_or(1);
+    if idx % stride != b.seed % stride {
+        return;
+    }
+    let step = (idx / FIRST_USE_ERRNOS.len() as u64) as usize;
+    let errno = FIRST_USE_ERRNOS[(idx % FIRST_USE_ERRNOS.len() as u64) as usize];
+    let w = attack::race_world();
+    // 1. the first lookup of the process, with one fault
+    let mut first = fault_pair_case(&b.uni, 3, vec![Dec { step, fault: Some(crate::sup::Fault::Errno(errno)), ..Default::default() }]);
+    first.phase = "first-use-then-race".into();
+    first.fresh = true;
+    let mut atk = Attacker::new(&w);
+    let out1 = run_case(u, &first, &mut atk, false);
+    if out1.harness_error.is_some() || u.poisoned {
+        return;
+    }
+    if out1.records.iter().all(|r| r.faults_inside == 0) {
+        st.count("first_use_then_race.fault_beyond_the_first_lookup", 1);
+        return;
+    }
+    st.count("first_use_then_race.universes", 1);
+    // 2. the same process, later: racing lookups (moves at every window)
+    let thorough = b.tier == "thorough";
+    for li in if thorough { vec![1usize, 3] } else { vec![3usize] } {
+        let mut atk = Attacker::new(&w);
+        let out0 = run_case(u, &fault_pair_case(&b.uni, li, vec![]), &mut atk, false);
+        if out0.harness_error.is_some() || u.poisoned {
+            return;
+        }
+        let wins = lib_windows(&out0, 0);
+        for mv in fault_pair_moves().into_iter().take(if thorough { 2 } else { 1 }) {
+            for (wi, &wd) in wins.iter().enumerate() {
+                if !thorough && wi % 2 != (idx as usize) % 2 {
+                    continue;
+                }
+                let mut case = fault_pair_case(&b.uni, li, vec![Dec { step: wd, attack: vec![mv.clone()], ..Default::default() }]);
+                case.phase = "first-use-then-race".into();
+                case.extra = json!({"first_lookup_fault": {"step": step, "errno": sys::errname(errno)}, "note": "to reproduce: a fresh process whose first lookup (resolve a/b/c/d/../../../../etc/passwd, C facade) gets this fault, then this case"});
+                let mut atk = Attacker::new(&w);
+                let mut out = run_case(u, &case, &mut atk, false);
+                if out.harness_error.is_some() {
+                    return;
+                }
+                st.count("first_use_then_race.windows", 1);
+                eval(&case, &mut out, &atk, st);
+                if u.poisoned {
+                    return;
+                }
+            }
+        }
+    }
 }
 
 pub fn fault_pair_lookups() -> Vec<OpSpec> {
@@ -144,6 +211,14 @@ pub fn enum_case(uni: &UniCfg, li: usize, script: Vec<Dec>) -> Case {
 }
 
 pub fn run(u: &mut Universe, b: &Batch, st: &mut Stats) {
+    // (the first-use phase must meet the library uninitialised)
+    if b.phase == "first-use-then-race" {
+        for idx in b.lo..b.hi {
+            coord::progress(idx);
+            run_first_use_then_race(u, b, idx, st);
+        }
+        return;
+    }
     if let Err(e) = warm_up(u) {
         st.harness_errors.push(format!("warm-up: {e}"));
         return;
@@ -184,6 +259,9 @@ pub fn run(u: &mut Universe, b: &Batch, st: &mut Stats) {
                 if idx == b.lo {
                     st.sample(json!({"phase": "swarm", "universe": b.uni.tag(), "case": case.with_explicit(&out.decisions).to_json(), "outcomes": out.records.iter().map(|r| r.outcome.class()).collect::<Vec<_>>()}));
                 }
+            }
+            "first-use-then-race" => {
+                run_first_use_then_race(u, b, idx, st);
             }
             "enum-fault" => {
                 let nmv = fault_pair_moves().len();
@@ -325,7 +403,7 @@ pub fn finalise(tier: &str, seed: u64, res: coord::CheckResult) -> i32 {
         tier,
         seed,
         "exploration",
-        "one evaluation = one lookup during which the simulated attacker may mutate the tree before any trapped system call; phases: exhaustive single placement (race world: every lookup scenario x every catalogue mutation x every window), one attacker move plus one resource fault at every pair of positions (emulated backend, lookups ending in '..', the fault within the 32 calls after the move; quick: every fourth pair), flip-flop pairs (mutation at w1, inverse at w2>w1, sampled), seeded swarm on generated worlds with decoys; non-trivial = at least one attacker mutation took effect strictly inside the lookup; distinct = distinct hash of (world, ops, explicit decision list)",
+        "one evaluation = one lookup during which the simulated attacker may mutate the tree before any trapped system call; phases: exhaustive single placement (race world: every lookup scenario x every catalogue mutation x every window), first-use-then-race (fresh process: one fault at every system call of the first lookup, then racing lookups with a move at every window - whatever the library keeps from its first use must not weaken later lookups), one attacker move plus one resource fault at every pair of positions (emulated backend, lookups ending in '..', the fault within the 32 calls after the move; quick: every fourth pair), flip-flop pairs (mutation at w1, inverse at w2>w1, sampled), seeded swarm on generated worlds with decoys; non-trivial = at least one attacker mutation took effect strictly inside the lookup; distinct = distinct hash of (world, ops, explicit decision list)",
         res,
         extra,
         vec![
